@@ -45,7 +45,24 @@ func (s *UnitSpec) closureLoop(prefix string, ord int) *LoopSpec {
 func (u *Unit) freshOf(st *State, hint string, t types.Type) Term {
 	v := u.defs.Fresh(hint, sortOf(t))
 	u.assume(st, typeFacts(v, t))
+	u.assume(st, u.ptrBound(v, t))
 	return v
+}
+
+// ptrBound: a reference not created by this unit's own allocations lies below ALLOC_BASE; the unit's own
+// allocations are ALLOC_BASE+1 .. ALLOC_BASE+allocCtr. So every reference value is <= ALLOC_BASE+allocCtr.
+func (u *Unit) ptrBound(v Term, t types.Type) Term {
+	if u.allocBase.S == "" {
+		return True
+	}
+	top := App("+", SInt, u.allocBase, IntLit(int64(u.allocCtr)))
+	switch t.Underlying().(type) {
+	case *types.Pointer, *types.Map, *types.Chan:
+		return App("<=", SBool, v, top)
+	case *types.Slice:
+		return App("<=", SBool, App("s_arr", SInt, v), top)
+	}
+	return True
 }
 
 func (u *Unit) newAddr(st *State, hint string) Term {
